@@ -259,6 +259,8 @@ def strategy(draw, tier="quick"):
             case["atoms"] = sorted(set(a for a in prog if 0 <= a < na))
         else:
             case["atoms"] = sorted(set(draw(st.lists(st.integers(0, na - 1), min_size=1, max_size=na))))
+            if len(case["atoms"]) > 1 and draw(st.integers(0, 3)) == 0:
+                case["atoms"] = list(draw(st.permutations(case["atoms"])))     # the caller's order, not ascending
     if op in ("stride", "iterload", "list"):
         case["stride"] = draw(st.integers(1, 5))
     if op == "frame":
@@ -268,6 +270,10 @@ def strategy(draw, tier="quick"):
         case["skip"] = draw(st.integers(0, nf))
     if op == "list":
         case["k"] = draw(st.integers(1, 4))
+        if fmt != "dtr" and draw(st.integers(0, 2)) == 0:
+            # restart segments: a second file that begins with the last frame of the first, loaded with discard_overlapping_frames
+            case["discard"] = draw(st.booleans())
+            case["stride"] = draw(st.sampled_from([1, 1, 2, nf - 1 if nf > 2 else 1]))
     return _avoid(case, _open_keys(), draw(st.booleans()))
 
 
@@ -395,6 +401,24 @@ def _run_case(case):
                         if d2 or _top_sig(got2.topology) != _top_sig(fulls_all[0].atom_slice(other).topology):
                             viol.append(("load-list-atoms/second-load", "a second load through the same Topology object with another atom subset is wrong: %s" % d2))
                 nontrivial = k > 1 or atoms is not None
+                if "discard" in case and not viol:
+                    # a second file holding the frames of the first in reverse order: it begins with the first one's last frame
+                    rev = fulls_all[0][::-1]
+                    rev.time = fulls_all[0].time.copy()
+                    with files.scratch() as d2:
+                        fr = os.path.join(d2, "rev." + fmt)
+                        rev.save(fr)
+                        full_rev = files.load(fr, fmt, tr.topology)
+                        got = md.load([fns[0], fr], stride=stride, discard_overlapping_frames=case["discard"], **akw, **kw)
+                    p0, p1 = fulls_all[0][::stride], full_rev[::stride]
+                    overlap = bool(np.all(np.abs(p1.xyz[0] - p0.xyz[-1]) < 2e-3))
+                    if case["discard"] and overlap and len(p0) > 0:
+                        # documented rule: the last frame of a piece is dropped when the next piece begins with (nearly) the same frame
+                        labels.append("overlap-discarded")
+                        p0 = p0[:-1]
+                    exp2 = p1 if len(p0) == 0 else md.join([p0, p1], check_topology=False)
+                    cmp("load-list-overlapping(discard=%s)" % case["discard"], got, expect(exp2))
+                    nontrivial = True
             else:
                 chunk, skip = case["chunk"], case["skip"]
                 exp = expect(full[skip:][::stride])
